@@ -95,7 +95,141 @@ impl Ctx {
     }
 }
 
+// ------------------------------------------------------------------------------------------
+//   sweep enumstr <vectors.ndjson> <log2 tries per table and length> <threads> <out.ndjson>
+//
+// The identifier tables accept EXACTLY their listed spellings.  The listed spellings are read from
+// the TLC-emitted vectors (op enum_str whose expectation is `ok`); then, for every table,
+//   * every string of up to three bytes over 0x00..0x7F, every four-byte string over the
+//     printable characters, and
+//   * for every length a listed name has, 2^k strings of that length: random over the name
+//     alphabet, and listed names with 1..4 positions re-drawn
+// go through TryFrom<&str>; a string is accepted iff it is listed (and converts back to itself).
+// A look-up that compares less than the whole string (a hash, a prefix, a length) accepts
+// something in this space long before the space is exhausted.
+// ------------------------------------------------------------------------------------------
+fn lookup(table: &str, s: &str) -> Option<&'static str> {
+    use ctap_types::ctap2::get_info;
+    match table {
+        "Version" => get_info::Version::try_from(s).ok().map(|v| v.into()),
+        "Extension" => get_info::Extension::try_from(s).ok().map(|v| v.into()),
+        "Transport" => get_info::Transport::try_from(s).ok().map(|v| v.into()),
+        "Format" => ctap2::AttestationStatementFormat::try_from(s).ok().map(|v| v.into()),
+        _ => None,
+    }
+}
+
+fn enumstr(args: &[String]) -> i32 {
+    let log2: u32 = args[2].parse().expect("log2 tries");
+    let threads: usize = args[3].parse().expect("threads");
+    let f = std::io::BufReader::new(std::fs::File::open(&args[1]).expect("open vectors"));
+    let mut names: HashMap<String, Vec<String>> = HashMap::new();
+    for line in f.lines() {
+        let v: Value = match serde_json::from_str(&line.expect("read")) { Ok(v) => v, Err(_) => continue };
+        if v["op"] == "enum_str" && v["exp"]["ok"] == true {
+            let b: Vec<u8> = v["s"].as_array().unwrap().iter().map(|x| x.as_u64().unwrap() as u8).collect();
+            let e = names.entry(v["table"].as_str().unwrap().to_string()).or_default();
+            let s = String::from_utf8(b).expect("listed names are UTF-8");
+            if !e.contains(&s) { e.push(s); }
+        }
+    }
+    let names = Arc::new(names);
+    let checked = Arc::new(AtomicU64::new(0));
+    let mism: Arc<Mutex<Vec<Value>>> = Arc::new(Mutex::new(vec![]));
+    // work items: (table, kind, parameter)
+    let mut items: Vec<(String, u8, usize, u64)> = vec![];
+    let mut tables: Vec<&String> = names.keys().collect();
+    tables.sort();
+    for t in tables {
+        for first in 0..128usize { items.push((t.clone(), 0, first, 0)); }          // short strings, by first byte
+        let mut lens: Vec<usize> = names[t].iter().map(|n| n.len()).collect();
+        lens.sort(); lens.dedup();
+        let chunks = 64u64;
+        for l in lens {
+            for c in 0..chunks { items.push((t.clone(), 1, l, c)); }
+        }
+    }
+    let per_chunk: u64 = (1u64 << log2) / 64;
+    let items = Arc::new(Mutex::new(items));
+    let mut hs = vec![];
+    for _ in 0..threads.max(1) {
+        let (names, checked, mism, items) = (names.clone(), checked.clone(), mism.clone(), items.clone());
+        hs.push(std::thread::spawn(move || {
+            let judge = |t: &str, s: &str, listed: &Vec<String>, n: &mut u64| {
+                *n += 1;
+                let got = std::panic::catch_unwind(|| lookup(t, s));
+                let want = listed.iter().any(|x| x == s);
+                let bad = match got { Err(_) => true, Ok(g) => g.is_some() != want || (want && g != Some(s)) };
+                if bad {
+                    let mut m = mism.lock().unwrap();
+                    if m.len() < 100 { m.push(json!({"table": t, "s": crate::proj::bytes(s.as_bytes())})); }
+                }
+            };
+            loop {
+                let job = items.lock().unwrap().pop();
+                let (t, kind, a, c) = match job { Some(j) => j, None => break };
+                let listed = &names[&t];
+                let mut n = 0u64;
+                if kind == 0 {
+                    let first = a as u8;
+                    let mut buf = [first, 0, 0, 0];
+                    if first == 0 { judge(&t, "", listed, &mut n); }
+                    judge(&t, std::str::from_utf8(&buf[..1]).unwrap(), listed, &mut n);
+                    for b in 0..128u8 {
+                        buf[1] = b;
+                        judge(&t, std::str::from_utf8(&buf[..2]).unwrap(), listed, &mut n);
+                        for c2 in 0..128u8 {
+                            buf[2] = c2;
+                            judge(&t, std::str::from_utf8(&buf[..3]).unwrap(), listed, &mut n);
+                            if (0x20..0x7F).contains(&first) && (0x20..0x7F).contains(&b) && (0x20..0x7F).contains(&c2) {
+                                for d in 0x20..0x7Fu8 {
+                                    buf[3] = d;
+                                    judge(&t, std::str::from_utf8(&buf[..4]).unwrap(), listed, &mut n);
+                                }
+                            }
+                        }
+                    }
+                } else {
+                    const ALPHA: &[u8] = b"ABCDEFGHIJKLMNOPQRSTUVWXYZabcdefghijklmnopqrstuvwxyz0123456789_-";
+                    let mut rng = crate::drive::Rng(0x9E37_79B9_7F4A_7C15 ^ ((a as u64) << 32) ^ c ^ (t.len() as u64) << 48);
+                    let of_len: Vec<&String> = listed.iter().filter(|x| x.len() == a).collect();
+                    let mut buf = vec![b'a'; a];
+                    for i in 0..per_chunk {
+                        if i % 4 == 0 && !of_len.is_empty() {
+                            // a listed name with 1..4 positions re-drawn
+                            buf.copy_from_slice(of_len[(i / 4) as usize % of_len.len()].as_bytes());
+                            let k = 1 + (rng.next() % 4) as usize;
+                            for _ in 0..k { let p = (rng.next() % a as u64) as usize; buf[p] = ALPHA[(rng.next() % 64) as usize]; }
+                        } else {
+                            let mut r = 0u64;
+                            for (j, x) in buf.iter_mut().enumerate() {
+                                if j % 10 == 0 { r = rng.next(); }
+                                *x = ALPHA[(r & 63) as usize];
+                                r >>= 6;
+                            }
+                        }
+                        judge(&t, std::str::from_utf8(&buf).unwrap(), listed, &mut n);
+                    }
+                }
+                checked.fetch_add(n, Ordering::Relaxed);
+            }
+        }));
+    }
+    for h in hs { h.join().ok(); }
+    let mut w = std::io::BufWriter::new(std::fs::File::create(&args[4]).expect("create out"));
+    let m = mism.lock().unwrap();
+    for x in m.iter() { writeln!(w, "{}", x).unwrap(); }
+    let listed: usize = names.values().map(|v| v.len()).sum();
+    writeln!(w, "{}", json!({"summary": true, "checked": checked.load(Ordering::Relaxed), "mismatches": m.len(),
+        "table": listed, "unspec": 0})).unwrap();
+    w.flush().unwrap();
+    0
+}
+
 pub fn main(args: &[String]) -> i32 {
+    if args.len() >= 5 && args[0] == "enumstr" {
+        return enumstr(args);
+    }
     if args.len() < 5 || args[0] != "prefix" {
         eprintln!("usage: sweep prefix <table.ndjson> <depth> <threads> <out.ndjson>");
         return 2;
